@@ -24,6 +24,8 @@ def gen_cfg(path, progs, depth, mode):
             f.write("SPECIFICATION TwiceSpec\nINVARIANTS ShapeOK EmitTwice\n")
         elif mode == "round":
             f.write("SPECIFICATION RoundSpec\nINVARIANTS ShapeOK EmitRound\n")
+        elif mode == "again":
+            f.write("SPECIFICATION AgainSpec\nINVARIANTS ShapeOK EmitRound\n")
         f.write("CHECK_DEADLOCK FALSE\n")
 
 
@@ -54,7 +56,8 @@ CAPS = {"App1": 220, "App2": 400, "App3": 220, "App4": 150, "none": 100, "App5":
 def generate(ctx, quick, rnd):
     jobs = []   # (key, cfg kwargs, tlc kwargs, cap per program)
     # (1) BFS depth 1: every invocation of the pools on the initial sandbox, for ten programs
-    jobs.append((("bfs", "ProgsBfs"), dict(progs="ProgsBfs", depth=1, mode="bfs"), dict(workers=2, timeout=1800), CAPS if quick else None))
+    for progs in ("ProgsBfsA", "ProgsBfsB"):
+        jobs.append((("bfs", progs), dict(progs=progs, depth=1, mode="bfs"), dict(workers=1 if quick else 2, timeout=1800), CAPS if quick else None))
     # (2) the same place written twice / new --out and back
     jobs.append((("twice", "ProgsTwice"), dict(progs="ProgsTwice", depth=2, mode="twice"), dict(workers=2, timeout=1800),
                  {"*": 150} if quick else None))
@@ -62,8 +65,11 @@ def generate(ctx, quick, rnd):
         jobs.append((("twice", "ProgsTwiceMore"), dict(progs="ProgsTwiceMore", depth=2, mode="twice"), dict(workers=2, timeout=1800), None))
     jobs.append((("round", "ProgEmpty1"), dict(progs="ProgEmpty1", depth=3, mode="round"), dict(workers=1, timeout=1800),
                  {"*": 100} if quick else None))
+    again = "ProgSmall1" if quick else "ProgsTwice"
+    jobs.append((("again", again), dict(progs=again, depth=3, mode="again"), dict(workers=1 if quick else 2, timeout=1800),
+                 {"*": 60} if quick else None))
     # (3) random walks over all sixteen programs
-    nsim, dsim, num = (3, 12, 25) if quick else (10, 16, 120)
+    nsim, dsim, num = (2, 12, 36) if quick else (10, 16, 120)
     for k in range(nsim):
         jobs.append((("sim", k), dict(progs="ProgsAll", depth=dsim, mode="sim"),
                      dict(workers=1, timeout=1800, simulate="num=%d" % num, depth=dsim + 2, seed=ctx.seed * 100 + k), None))
@@ -229,8 +235,12 @@ def run(ctx):
     report(ctx, cases, findings, seen)
     phases["judge"] = round(time.time() - t0, 1)
     ninv = sum(len(c["invs"]) for c in cases)
+    repeated = {k[1:]: stats.pop(k) for k in list(stats) if k.startswith("@")}
     if sum(stats.values()) != ninv:
         raise core.Infra("judged %d invocation lines for %d generated invocations" % (sum(stats.values()), ninv))
+    ctx.extra["repeated_read_only_invocations_compared"] = repeated
+    if sum(repeated.values()) == 0:
+        raise core.Infra("no read-only invocation was run twice in one history (X08.Repeatable vacuous)")
     ctx.traces += len(cases)
     ctx.extra["invocations_judged"] = ninv
     ctx.extra["invocations_by_class"] = {c: sum(n for k, n in stats.items() if k.startswith(c + "/"))
@@ -273,12 +283,13 @@ def selftest(ctx, vh, cases):
             raise core.Infra("self-test: no suitable line")
         return ks[-1]
 
-    wrote = lambda r: r["res"] == "ok" and r["inv"]["cmd"] in ("generate", "gen") and any(e["d"]["kind"] == "text" and e["p"] not in ("afile", "exist/stale.txt") for e in r["fs"])
-    k1 = last(wrote)
-    for e in rows[k1]["fs"]:
-        if e["d"]["kind"] == "text" and e["p"] not in ("afile", "exist/stale.txt"):
-            e["d"]["t"] += "x"
-            break
+    def fresh_texts(i):
+        """text files of line i that the line before did not have: written by this invocation"""
+        before = {e["p"] for e in rows[i - 1]["fs"]}
+        return [e for e in rows[i]["fs"] if e["d"]["kind"] == "text" and e["p"] not in before]
+
+    k1 = last(lambda r: r["res"] == "ok" and r["inv"]["cmd"] in ("generate", "gen") and fresh_texts(rows.index(r)))
+    fresh_texts(k1)[0]["d"]["t"] += "x"
     k2 = last(lambda r: r["res"] == "exit" and r["code"] == 2)
     rows[k2]["res"], rows[k2]["code"] = "ok", 0
     want = {k1: "X08.Files", k2: "X08.Rejects"}
